@@ -279,7 +279,10 @@ class Ctx:
 
     def violation(self, key, what, replay):
         """Property fails on the real code for a concrete input."""
-        if len(self.violations) < 200:
+        # keep the first occurrences per key (a frequent listed finding must not crowd out another key)
+        self._vcount = getattr(self, "_vcount", {})
+        self._vcount[key] = self._vcount.get(key, 0) + 1
+        if self._vcount[key] <= 2 and len(self._vcount) <= 2000:
             self.violations.append({"key": key, "what": what, "replay": replay})
 
     def tie_break(self, name, what, replay):
